@@ -449,6 +449,7 @@ FN_RE = re.compile(r'^fn (.*?)\((.*)\) -> (.*) \{$')
 
 
 SIMPLE_CONSTS = {}
+FULL_CONSTS = {}   # full const name -> literal text (one-line consts, incl. associated consts of impls / trait defaults)
 
 
 def parse_mir(text: str) -> Dict[str, List[Func]]:
@@ -477,9 +478,10 @@ def parse_mir(text: str) -> Dict[str, List[Func]]:
             m = re.match(r'const (.*): (.*) = \{$', ln)
             hdr = (m.group(1), [], m.group(2))
         if hdr is None:
-            mc = re.match(r'const (.*?): (.*?) = const (.*);$', ln)
+            mc = re.match(r'const (.*): ([^=]*?) = const (.*);$', ln)
             if mc:
                 SIMPLE_CONSTS[mc.group(1).split('::')[-1]] = mc.group(3)
+                FULL_CONSTS[mc.group(1)] = mc.group(3)
             i += 1
             continue
         start = i
